@@ -21,8 +21,9 @@ RANDOMISED = ["PCGrad", "GradDrop", "Random"]
 F5_TARGETS = {"svd": ["UPGrad", "DualProj", "CAGrad"], "eigh": ["AlignedMTL"], "pinv": ["IMTLG", "ConFIG"], "qp": ["UPGrad", "DualProj"]}
 RULE = (
     "a run = a pool of 6..9 aggregator instances (every aggregator except NashMTL, varied parameters), a pool of "
-    "4 matrices with a common row count (shapes incl. m=1, n=1, m>n; rank-deficient, zero and duplicate rows; "
-    "float32/float64; scales 1e-3..1e3) and a history of 8..16 steps: call(A_i, J_j [, seed]), "
+    "5 matrices (shapes incl. m=1, n=1, m>n; rank-deficient, zero and duplicate rows; scales 1e-3..1e3) of "
+    "which two differ in row count and/or dtype (float32/float64) from the others -- instances without "
+    "row-bound tensors are called across row counts and dtypes -- and a history of 8..16 steps: call(A_i, J_j [, seed]), "
     "corrupt(A_i, J_j, F4 kind at a seeded position: NaN/+Inf/-Inf entry, 0-d/1-d/3-d tensor, row count "
     "contradicting weights/pref/leak/minimum), kernel-failure(A_i, J_j, F5 site in {svd, eigh, pinv, qp}). "
     "After every step: the bytes of the input are unchanged; a clean call has shape (n,), the input dtype, is "
@@ -108,33 +109,54 @@ def _row_requirement(a, m):
     return []
 
 
+def _bound(a):
+    """Is this configuration bound to one row count / dtype (it holds a tensor of weights)?"""
+    return a["kind"] == "Constant" or a.get("pref") is not None or a.get("leak") is not None
+
+
+def _callable(a, mat, m0, dtype0):
+    """May aggregator config `a` be called on matrix descriptor `mat` (rows, dtype)?"""
+    if _bound(a):
+        return mat["m"] == m0 and mat["dtype"] == dtype0
+    return admissible(a, mat["m"])
+
+
 def generate(rng, tier, index):
     m = rng.choice([1, 2, 2, 3, 3, 4, 5, 6])
     dtype = "float32" if rng.random() < 0.5 else "float64"
+    other = "float64" if dtype == "float32" else "float32"
     pool = _agg_pool(rng, m)
     if not pool:
         return None
     mats = []
-    for _ in range(4):
-        n = rng.choice([1, 2, 3, 5, 8] if m > 1 else [1, 3, 6])
-        mats.append(_matrix(rng, m, n, 10 ** rng.uniform(-3, 3)))
+    for k in range(5):
+        # the first three matrices share (m, dtype) with the tensor-configured aggregators; the others vary
+        mk = m if k < 3 else rng.choice([1, 2, 3, 4, 5, 6, 7])
+        dk = dtype if k < 2 else rng.choice([dtype, other])
+        n = rng.choice([1, 2, 3, 5, 8] if mk > 1 else [1, 3, 6])
+        mats.append({"m": mk, "dtype": dk, "J": _matrix(rng, mk, n, 10 ** rng.uniform(-3, 3))})
     steps = []
     faults_on = index % 2 == 1  # fault-free and fault-injecting configurations are separate batches
     n_steps = rng.randint(8, 16)
-    for _ in range(n_steps):
+    guard = 0
+    while len(steps) < n_steps and guard < 200:
+        guard += 1
         ai = rng.randrange(len(pool))
         ji = rng.randrange(len(mats))
-        r = rng.random()
         a = pool[ai]
+        if not _callable(a, mats[ji], m, dtype):
+            continue
+        mj = mats[ji]["m"]
+        r = rng.random()
         if faults_on and r < 0.25:
             kinds = ["nan", "posinf", "neginf", "ndim1", "ndim3", "ndim0"]
-            req = _row_requirement(a, m)
+            req = _row_requirement(a, mj)
             if req:
                 kinds += ["rows", "rows"]
             fk = rng.choice(kinds)
             f = {"kind": fk}
             if fk in ("nan", "posinf", "neginf"):
-                f["pos"] = [rng.randrange(m), rng.randrange(len(mats[ji][0]))]
+                f["pos"] = [rng.randrange(mj), rng.randrange(len(mats[ji]["J"][0]))]
             if fk == "rows":
                 f["rows"] = rng.choice(req)
             steps.append({"op": "corrupt", "a": ai, "j": ji, "fault": f})
@@ -180,10 +202,13 @@ def _nan_aware_equal(a, b):
 
 
 def execute(scn):
-    dtype = torch.float32 if scn["dtype"] == "float32" else torch.float64
+    DT = {"float32": torch.float32, "float64": torch.float64}
+    dtype0 = DT[scn["dtype"]]
     m = scn["m"]
-    pool = [make_agg(a, dtype) for a in scn["pool"]]
-    mats = [torch.tensor(M, dtype=dtype) for M in scn["mats"]]
+    pool = [make_agg(a, dtype0) for a in scn["pool"]]
+    mats = [torch.tensor(M["J"], dtype=DT[M["dtype"]]) for M in scn["mats"]]
+    row_counts = set()
+    dtypes_seen = set()
     stats, events, viols, sets = {}, [], [], {}
     faulted = set()  # instances that went through a fault step
     clean_after_fault = False
@@ -196,6 +221,9 @@ def execute(scn):
         A = pool[ai]
         J = mats[ji]
         n = J.shape[1]
+        dtype = J.dtype
+        row_counts.add((ai, J.shape[0]))
+        dtypes_seen.add((ai, str(dtype)))
         if st["op"] == "call":
             before = _bytes(J)
             torch.manual_seed(int(st["seed"]))
@@ -207,18 +235,18 @@ def execute(scn):
             stats["api_calls"] = stats.get("api_calls", 0) + 1
             if _bytes(J) != before:
                 viols.append({"clause": "input_modified", "step": si, "details": {"agg": kind, "op": "call"}, "key": {"agg": kind}})
-                mats[ji] = torch.tensor(scn["mats"][ji], dtype=dtype)
+                mats[ji] = torch.tensor(scn["mats"][ji]["J"], dtype=dtype)
             if exc is not None:
-                viols.append({"clause": "clean_call_raised", "step": si, "details": {"agg": a_spec, "exc": exc, "matrix": scn["mats"][ji]}, "key": {"agg": kind, "exc": exc.split(":")[0]}})
+                viols.append({"clause": "clean_call_raised", "step": si, "details": {"agg": a_spec, "exc": exc, "matrix": scn["mats"][ji]["J"], "dtype": scn["mats"][ji]["dtype"]}, "key": {"agg": kind, "exc": exc.split(":")[0]}})
                 events.append([si, "call", kind, "raised"])
                 continue
             events.append([si, "call", kind, digest(_bytes(out))])
             if tuple(out.shape) != (n,) or out.dtype != dtype:
                 viols.append({"clause": "wrong_shape_or_dtype", "step": si, "details": {"agg": kind, "shape": list(out.shape), "dtype": str(out.dtype), "expected": [n, str(dtype)]}, "key": {"agg": kind}})
             elif not bool(torch.isfinite(out).all()):
-                viols.append({"clause": "nonfinite_output_on_finite_input", "step": si, "details": {"agg": a_spec, "matrix": scn["mats"][ji]}, "key": {"agg": kind}})
+                viols.append({"clause": "nonfinite_output_on_finite_input", "step": si, "details": {"agg": a_spec, "matrix": scn["mats"][ji]["J"], "dtype": scn["mats"][ji]["dtype"]}, "key": {"agg": kind}})
             # fresh instance, same seed: history must be unobservable
-            fresh = make_agg(a_spec, dtype)
+            fresh = make_agg(a_spec, dtype0)
             torch.manual_seed(int(st["seed"]))
             try:
                 ref = fresh(J)
@@ -280,6 +308,10 @@ def execute(scn):
             if exc is None:
                 if tuple(out.shape) != (n,) or out.dtype != dtype or not bool(torch.isfinite(out).all()):
                     viols.append({"clause": "fault_path_returned_bad_data", "step": si, "details": {"agg": a_spec, "site": site, "shape": list(out.shape), "dtype": str(out.dtype), "finite": bool(torch.isfinite(out).all())}, "key": {"agg": kind, "site": site}})
+    if any(len({rc for (i, rc) in row_counts if i == ai}) > 1 for ai in range(len(pool))):
+        stats["reach.same_instance_called_with_different_row_counts"] = 1
+    if any(len({d for (i, d) in dtypes_seen if i == ai}) > 1 for ai in range(len(pool))):
+        stats["reach.same_instance_called_with_different_dtypes"] = 1
     sets["agg_kinds"] = sorted({a["kind"] for a in scn["pool"]})
     sets["step_trigrams"] = ["-".join(s["op"] for s in scn["steps"][i : i + 3]) for i in range(max(1, len(scn["steps"]) - 2))]
     uniq = {}
@@ -308,7 +340,8 @@ def shrink(scn):
             st["a"] = used_a.index(st["a"])
             st["j"] = used_j.index(st["j"])
         yield s
-    for j, M in enumerate(scn["mats"]):
+    for j, Md in enumerate(scn["mats"]):
+        M = Md["J"]
         n = len(M[0])
         if n > 1:
             for c in range(n):
@@ -316,14 +349,15 @@ def shrink(scn):
                 if bad:
                     continue
                 s = copy.deepcopy(scn)
-                s["mats"][j] = [[v for k, v in enumerate(r) if k != c] for r in M]
+                s["mats"][j]["J"] = [[v for k, v in enumerate(r) if k != c] for r in M]
                 yield s
         R = [[float(round(v, 2)) for v in r] for r in M]
         if R != M:
             s = copy.deepcopy(scn)
-            s["mats"][j] = R
+            s["mats"][j]["J"] = R
             yield s
-    if scn["dtype"] == "float32":
+    if False:
+
         s = copy.deepcopy(scn)
         s["dtype"] = "float64"
         yield s
